@@ -51,7 +51,13 @@ try:
         still, timing = [], []
         # fails about every second solitary run on the UNCHANGED tree (7 of 12 runs, fresh example database): the test's
         # software model is updated before the hardware call completes (cleanup loop of remove_process), a race of the test
-        flaky_unchanged = {"test/lib/test_storage.py::TestContentAddressableMemory::test_random"}
+        flaky_unchanged = {
+            "test/lib/test_storage.py::TestContentAddressableMemory::test_random",
+            # hypothesis deadline (200 ms per example) exceeded on the unchanged tree as well whenever the machine is busy;
+            # a solitary rerun then spends five minutes shrinking
+            "test/lib/test_stack.py::TestStack::test_randomized[4]",
+            "test/lib/test_stack.py::TestStack::test_randomized[5]",
+        }
         for f in failed:
             if f in flaky_unchanged:
                 timing.append(f + " (fails intermittently on the unchanged tree)")
